@@ -1,2 +1,3 @@
 import Lemmas.B64
 import Lemmas.IntCodec
+import Lemmas.Ascii
